@@ -16,6 +16,7 @@ CHECKS = {
     "C12": "pprops",
     "C13": "pprops",
     "C16": "c16",
+    "C17": "c17",
     "C07": "c07",
     "C08": "c08",
     "C09": "c09",
